@@ -43,8 +43,21 @@ func (s *syncBuf) String() string {
 	return s.b.String()
 }
 
-// StartProc launches the server binary as a child process.
+// StartProc launches the server binary as a child process (retrying when the
+// chosen port is lost to another process before the child binds it).
 func StartProc(o Opts) (*Proc, error) {
+	var lastErr error
+	for attempt := 0; attempt < 5; attempt++ {
+		p, err := startProcOnce(o)
+		if err == nil {
+			return p, nil
+		}
+		lastErr = err
+	}
+	return nil, lastErr
+}
+
+func startProcOnce(o Opts) (*Proc, error) {
 	bin := ServerBin()
 	if bin == "" {
 		return nil, fmt.Errorf("VERIF_SERVER_BIN not set")
